@@ -15,6 +15,7 @@ import (
 
 	"verif/lib/oxc"
 	"verif/lib/oxh"
+	"verif/lib/pipeh"
 	"verif/lib/sched"
 )
 
@@ -50,7 +51,11 @@ func scenarios(tier string) []sched.Scenario {
 	for _, sp := range specs {
 		out = append(out, sched.Scenario{Name: sp.Name, Cfg: cfg, MaxDev: dev, Body: oxc.Body(sp, mk)})
 	}
-	return out
+	// fine-grained schedules of the leader's own apply path (last: they inherit the budget the cluster
+	// scenarios did not use): two or three writers colliding on one key on a real RF=3 leader; the state
+	// the leader applied live must equal the fold of its log
+	return append(out, pipeh.ScenariosFor(tier, map[string]bool{"leader-state-not-fold-of-log": true, "apply-out-of-order": true,
+		"committed-entry-not-applied": true, "harness-setup": true})...)
 }
 
 func main() {
